@@ -69,7 +69,8 @@ def gen_random(seed: int, n: int, long_p: float = 0.1) -> List[Dict[str, Any]]:
         horizon = rng.randint(2, 6) * MIN + rng.choice([0, 500, 5000, 30000])
         if rng.random() < long_p:
             horizon = rng.randint(10, 30) * MIN + 7000
-        if len(out) % 40 == 17:
+        very_long = len(out) % 40 == 17
+        if very_long:
             horizon = rng.randint(125, 190) * MIN + 3000          # more than two hours: "minute m of every hour" recurs
         sid = 0
         srcs = []
@@ -86,6 +87,9 @@ def gen_random(seed: int, n: int, long_p: float = 0.1) -> List[Dict[str, Any]]:
                          "future": rng.random() < 0.3,
                          "removes": True, "fail": sorted(rng.sample(range(1, npolls + 1), rng.randint(0, min(2, npolls)))) if rng.random() < 0.4 else [],
                          "sched": sched})
+        if very_long:
+            sid += 1
+            srcs[0]["sched"].append({"sid": sid, "kind": "cron", "mins": [rng.randint(0, 59)], "cancel": False, "lblsid": False})   # hourly
         kickfail = [[rng.randint(1, max(1, sid)), rng.randint(1, 2)] for _ in range(rng.randint(0, 2))] if rng.random() < 0.4 else []
         steps: List[Any] = []
         for _ in range(rng.randint(0, 3)):
@@ -100,7 +104,7 @@ def gen_random(seed: int, n: int, long_p: float = 0.1) -> List[Dict[str, Any]]:
             src["edit"] = si % 2 == 1     # this source's pre_send stamps a label on the schedule it is about to let through
             for x in src["sched"]:
                 x["viak"] = x["sid"] % 3 == 0
-                x["noid"] = x["sid"] % 5 == 4 and not x["viak"] and not x.get("lblsid")
+                x["noid"] = x["sid"] % 3 == 1 and not x["viak"] and not x.get("lblsid")
                 if x["kind"] == "once" and not x.get("naive"):
                     x["tzh"] = (0, 2, -7, 13)[x["sid"] % 4]        # target time written on clocks with different UTC offsets
         for st in steps:
